@@ -189,8 +189,8 @@ func (m *TargetsDiscovery) translateTargets(targets map[string][]*targetgroup.Gr
 		for _, tr := range tsg {
 			ts, err := targetsFromGroup(tr, cfg)
 			if err != nil {
+				// ts still contains all valid targets of this group
 				m.log.Error("create target for job", cfg.JobName, err.Error())
-				continue
 			}
 
 			for _, tar := range ts {
